@@ -851,6 +851,9 @@ def run(out, drv, info):
     # ---- the limit as the user writes it (-L / --limit-rate <literal>) and the piece sizes derived from it (harness/impl/c20_sizelit.py)
     from ..impl import c20_sizelit
     c20_sizelit.run_stream(out, drv, info)
+    # ---- the wrapper stack (TQDM → callback → limiter → stream) and iter_chunks: transparency, tracker count, drains (harness/impl/c20_iostack.py)
+    from ..impl import c20_iostack
+    c20_iostack.run_stream(out, drv, info)
     out.extra['not_checked_here'] = ('limits 1–3 B/s: the one-byte chunk is more than a quarter of the limit (outside the property\'s quantifier; with limit 1 the cap '
                                      'forgives half a second per byte — Lean: C20.low_limit_forgives); S3 upload_stream hashes the stream through the limiter in 640 000-byte reads '
                                      '(backend code, requests larger than the chunk size the command chose)')
@@ -947,6 +950,9 @@ def replay(path, drv):
     if str(rp.get('kind', '')).startswith('sizelit'):
         from ..impl import c20_sizelit
         return c20_sizelit.replay_case(rp, drv)
+    if rp.get('kind') == 'iostack':
+        from ..impl import c20_iostack
+        return c20_iostack.replay_case(rp, drv)
     print('replay kind not supported:', rp.get('kind'))
     return 2
 
